@@ -759,7 +759,7 @@ func child(cfg *hx.Config, changed []string) {
 	// random windows
 	n := 700
 	if cfg.Thorough() {
-		n = 12000
+		n = 8000
 	}
 	for i := 0; i < n; i++ {
 		nth, per := 2+rnd.Intn(3), 1+rnd.Intn(3)
@@ -773,7 +773,7 @@ func child(cfg *hx.Config, changed []string) {
 	}
 	nh := 150
 	if cfg.Thorough() {
-		nh = 2000
+		nh = 1200
 	}
 	for i := 0; i < nh; i++ {
 		if h, ok := runHTTPWindow(rnd, 2+rnd.Intn(3), 1+rnd.Intn(2)); ok {
